@@ -62,6 +62,7 @@ LOCK_FNS = {
     'core::cell::RefCell::try_borrow_mut': ('cell', 'w', True),
 }
 DM_GUARD = ('get', 'get_mut', 'iter', 'iter_mut', 'entry', 'try_get', 'try_get_mut', 'try_entry')
+TRY_NAMES = ('try_lock', 'try_read', 'try_write', 'try_borrow', 'try_borrow_mut', 'try_get', 'try_get_mut', 'try_entry')
 DM_TRANSIENT = ('insert', 'remove', 'contains_key', 'clear', 'len', 'retain', 'is_empty', 'remove_if',
                 'remove_if_mut', 'alter', 'alter_all', 'shrink_to_fit', 'capacity', 'view')
 DM_WRITE = ('get_mut', 'iter_mut', 'entry', 'insert', 'remove', 'clear', 'retain', 'remove_if', 'remove_if_mut',
